@@ -91,6 +91,10 @@ peg::parser! {
             "(" _ expr:expression() _ ")" { expr }
         }
 
+        // N.B. Memoized: nearly every alternative of `expression()` starts by trying an lvalue
+        // at the same position, and an lvalue may hold a whole expression as its subscript --
+        // without the cache the time is exponential in the nesting depth of subscripts.
+        #[cache]
         rule lvalue() -> ast::ArithmeticTarget =
             name:variable_name() "[" _ index:expression() _ "]" {
                 ast::ArithmeticTarget::ArrayElement(name.to_owned(), Box::new(index))
